@@ -32,6 +32,7 @@ def b_(x) -> str:
 
 
 def translate(repo: Path) -> dict:
+    import os as os_mod
     import stat as pystat
     tree = T.module_ast(repo / "dulwich" / "index.py")
 
@@ -216,6 +217,74 @@ def translate(repo: Path) -> dict:
     deletes_first = del_loops[0] is not add_loops[0] and del_loops[0].lineno < add_loops[0].lineno and \
         not calls(add_loops[0], "_transition_to_absent")
 
+    # --- get_unstaged_changes: which index entries does the (serial or parallel) scan visit?  The function's own source
+    # is run on a fake index with `_check_entry_for_changes` replaced by a recorder, for many index sizes and worker
+    # counts (cpu_count patched); every entry must be visited exactly once.  Small cases go to Gen (a theorem re-checks
+    # them), the large ones -- across the sizes where batching usually breaks -- are checked here.
+    gu = copy.deepcopy(T.find_def(tree, "get_unstaged_changes"))
+    for a in gu.args.args + gu.args.kwonlyargs:
+        a.annotation = None
+    gu.returns = None
+    gu.decorator_list = []
+    import multiprocessing
+    visited: list = []
+
+    def _rec(tree_path, entry, *a_, **k_):
+        visited.append(entry)
+        return None
+    ns2: dict = {"os": os_mod, "_check_entry_for_changes": _rec}
+    try:
+        exec(compile(ast.fix_missing_locations(ast.Module(body=[gu], type_ignores=[])), "<get_unstaged_changes>", "exec"), ns2)
+    except Exception as e:  # noqa: BLE001
+        raise T.TranslateError(f"get_unstaged_changes: cannot evaluate the source: {e}")
+
+    class _FakeIndex:
+        def __init__(self, n):
+            self.n = n
+
+        def iteritems(self):
+            return iter([(b"p%06d" % i, i) for i in range(self.n)])
+
+        def __iter__(self):
+            return iter([b"p%06d" % i for i in range(self.n)])
+
+        def __len__(self):
+            return self.n
+
+        def __getitem__(self, k):
+            return int(k[1:])
+    scan_rows = []
+    real_cpu = multiprocessing.cpu_count
+    try:
+        for workers in (0, 1, 2, 3, 4, 5, 7, 8, 16):       # 0 = the serial scan (preload_index=False)
+            multiprocessing.cpu_count = (lambda w=workers: max(w, 1))
+            for n in (0, 1, 2, 3, 7, 8, 9, 15, 16, 17, 23, 31, 32, 33, 41, 63, 64, 65, 99, 100, 101, 127, 128, 129,
+                      499, 500, 501, 999, 1000, 1001, 1009, 2047, 4001):
+                visited.clear()
+                try:
+                    list(ns2["get_unstaged_changes"](_FakeIndex(n), b"/nonexistent", None, workers > 0))
+                except Exception as e:  # noqa: BLE001
+                    raise T.TranslateError(f"get_unstaged_changes raised on a fake index (n={n}, workers={workers}): {type(e).__name__}: {e}")
+                if sorted(visited) != list(range(n)):
+                    missing = sorted(set(range(n)) - set(visited))[:5]
+                    twice = sorted({x for x in visited if visited.count(x) > 1})[:5] if len(visited) < 5000 else []
+                    raise T.TranslateError(f"get_unstaged_changes does not visit every index entry exactly once: {n} entries, "
+                                           f"{workers or 'no'} workers: {len(visited)} visits, missing {missing}, repeated {twice}")
+                if n <= 41:
+                    scan_rows.append((n, workers, sorted(visited)))      # (threads call in any order: sorted, for a stable file)
+    finally:
+        multiprocessing.cpu_count = real_cpu
+    scan_lean = ",\n  ".join(f"({n}, {w}, [{', '.join(map(str, v))}])" for n, w, v in scan_rows)
+    # the partition itself: one task per entry (anything else -- slices, chunks -- the model does not describe)
+    per_entry = False
+    for n_ in ast.walk(gu):
+        if isinstance(n_, ast.ListComp) and calls(n_, "submit") and len(n_.generators) == 1 \
+                and isinstance(n_.generators[0].iter, ast.Name) and n_.generators[0].iter.id == "entries":
+            per_entry = True
+    if not per_entry:
+        raise T.TranslateError("get_unstaged_changes: the parallel scan no longer submits one task per index entry; "
+                               "the model has no description of its partition")
+
     # --- _transition_to_absent: is the index entry dropped also when nothing is left on disk?  (the `del index[path]`
     # before / inside the early return for `current_stat is None`)
     ta = T.find_def(tree, "_transition_to_absent")
@@ -278,6 +347,10 @@ def walkLinkDirsAsDirs : Bool := {b(link_dirs_as_dirs)}
 def strictPathDecoding : Bool := {b(strict_decode)}
 /-- `update_working_tree` applies all deletions before it writes -/
 def switchDeletesFirst : Bool := {b(deletes_first)}
+/-- `get_unstaged_changes` run (from its source) on a fake index: (number of entries, workers -- 0 = serial scan --,
+positions visited, sorted) -/
+def scanProbes : List (Nat × Nat × List Nat) := [
+  {scan_lean}]
 /-- `_transition_to_absent` removes the index entry also when the file is already gone -/
 def absentDropsIndex : Bool := {b(absent_drops)}
 /-- `_perform_tree_switch(force=True)` starts from the index tree with `want_unchanged` -/
@@ -458,6 +531,9 @@ class Scen:
         self._snap = None
         self.env_tok_at = None
         self.model_ok = True                    # False once the scenario left the model's domain
+        self.cfg: dict = {}                     # non-default configuration of the repository
+        self.idx_before_add = None              # the index as it was before the last add-all
+        self.idx_bytes_before_add = None
         self.failed = False
         self.tok("env:0:.")                     # placeholder, patched in finish()
         self.env_tok_at = 0
@@ -576,7 +652,17 @@ class Scen:
         a = [p for p in idx if p not in head]
         d = [p for p in head if p not in idx]
         m = [p for p in head if p in idx and (idx[p][0], idx[p][1]) != head[p]]
-        u = [p for p in idx if p not in wd or (wd[p]["kind"], wd[p]["cid"]) != (idx[p][0], idx[p][1])]
+        filemode = self.cfg.get("core.filemode", "true") != "false"
+        symlinks = self.cfg.get("core.symlinks", "true") != "false"
+
+        def same(f, e):
+            fk, ek = f["kind"], e[0]
+            if not filemode and fk != "l" and ek != "l":
+                fk = ek                                   # core.filemode=false: the executable bit is not compared
+            if not symlinks and ek == "l" and fk != "l":
+                fk = "l"                                  # core.symlinks=false: a plain file stands in for a link
+            return (fk, f["cid"]) == (ek, e[1])
+        u = [p for p in idx if p not in wd or not same(wd[p], idx[p])]
         t = [p for p in wd if p not in idx]
         return StatusView(a, d, m, u, t)
 
@@ -726,10 +812,27 @@ class Scen:
         items = [f"{hx(p)}={snap[p]['stat'][0]}/{snap[p]['stat'][1]}/{snap[p]['stat'][2]}/{snap[p]['res']}" for p in paths if p in snap]
         return "obs:" + (",".join(items) if items else ".")
 
+    def mode_untrusted(self, got, want) -> bool:
+        """the index entry `got` differs from `want` exactly in what the configuration says the file system cannot tell
+        (core.filemode=false: the executable bit; core.symlinks=false: link or plain file)."""
+        if got is None or want is None or got == want or got[1] != want[1]:
+            return False
+        if self.cfg.get("core.filemode") == "false" and {got[0], want[0]} == {"r", "x"}:
+            return True
+        return self.cfg.get("core.symlinks") == "false" and want[0] == "l" and got[0] in ("r", "x")
+
+    def wd_modulo_config(self, want: dict) -> dict:
+        """{path: (kind, cid)} of the directory; what the configuration declares meaningless on disk is taken from `want`."""
+        got = {p: (f["kind"], f["cid"]) for p, f in self.snapshot().items()}
+        if self.cfg.get("core.symlinks") == "false":       # links are checked out as plain files holding the target
+            got = {p: (("l" if (want.get(p) or ("",))[0] == "l" and k != "l" else k), c) for p, (k, c) in got.items()}
+        if self.cfg.get("core.filemode") == "false":       # the executable bit of the work tree carries no information
+            got = {p: ((want[p][0] if want.get(p) and {k, want[p][0]} <= {"r", "x"} else k), c) for p, (k, c) in got.items()}
+        return got
+
     def check_files(self, want: dict, what: str, cls=None):
         """oracle: the directory holds exactly `want` ({path: (kind, cid)}): contents, link targets, exec bits."""
-        snap = self.snapshot()
-        got = {p: (f["kind"], f["cid"]) for p, f in snap.items()}
+        got = self.wd_modulo_config(want)
         if got != want:
             diff = sorted(hx(p) for p in set(got) ^ set(want)) + sorted(hx(p) for p in got if p in want and got[p] != want[p])
             self.ctx.oracle_fail(self.stream, self.case(differing=diff[:10]), f"{what}: working directory differs from the tree at {diff[:5]}", cls)
@@ -759,6 +862,15 @@ class Scen:
             return
         self.check_files(t, "after checkout")
         self.cmp_index_files()
+        if s.get("cfg"):
+            # direct oracle under a non-default configuration: the index of a fresh checkout is the tree
+            idx = {p: (k, c) for p, (k, c, _) in self.read_index().items()}
+            bad = sorted(p for p in set(idx) | set(t) if idx.get(p) != t.get(p))
+            if bad:
+                cls = "config:index-mode-from-filesystem:checkout" if all(self.mode_untrusted(idx.get(p), t.get(p)) for p in bad) else None
+                self.ctx.oracle_fail(self.stream, self.case(differing=[hx(p) for p in bad[:6]]),
+                                     f"after a fresh checkout the index differs from the tree at {len(bad)} paths, e.g. {bad[0]!r}: index {idx.get(bad[0])}, tree {t.get(bad[0])}", cls)
+                self.failed = True
 
     def cmp(self, what, model_out, real_out):
         if model_out != real_out:
@@ -896,7 +1008,76 @@ class Scen:
 
     def do_addall(self, s):
         from dulwich import porcelain
+        self.idx_before_add = self.read_index()
+        try:
+            self.idx_bytes_before_add = open(self.repo.index_path(), "rb").read()
+        except FileNotFoundError:
+            self.idx_bytes_before_add = None
         self._index_op("addall", "addall", lambda: porcelain.add(self.repo))
+
+    def do_configs(self, s):
+        """repository configuration (written with dulwich's config writer; C git reads the same file)."""
+        cfg = self.repo.get_config()
+        for key, value in s["set"].items():
+            section, name = key.split(".", 1)
+            cfg.set((section.encode(),), name.encode(), value.encode())
+        cfg.write_to_path()
+        self.cfg = dict(s["set"])
+        if any(k in self.cfg for k in ("core.filemode", "core.symlinks", "core.trustctime")):
+            self.model_ok = False        # the model describes the default configuration
+
+    def do_addallcheck(self, s):
+        """after porcelain.add(): the index's tree is the tree of the directory, and `git add -A; git write-tree` agrees."""
+        snap, idx = self.snapshot(), self.read_index()
+        filemode = self.cfg.get("core.filemode", "true") != "false"
+        symlinks = self.cfg.get("core.symlinks", "true") != "false"
+        before = self.idx_before_add or {}
+        want = {}
+        for p, f in snap.items():
+            k = f["kind"]
+            if not filemode and k != "l":
+                # the executable bit is not taken from the file system: kept from the entry that was there, 644 for new paths
+                k = before[p][0] if p in before and before[p][0] != "l" else "r"
+            if not symlinks and k != "l" and p in before and before[p][0] == "l":
+                k = "l"                           # links are plain files on disk
+            want[p] = (k, self.reg.sha_of(f["cid"]))
+        wid = oracle_tree_id(want)
+        try:
+            got = bytes(self.repo.open_index().commit(self.repo.object_store))
+        except Exception as e:  # noqa: BLE001
+            got = b"exception " + type(e).__name__.encode()
+        self.ctx.count(self.stream + ".addall-tree", (self.label, len(self.script)), True, "equal" if got == wid else "differs")
+        if got != wid:
+            have = {p: (k, c) for p, (k, c, _) in idx.items()}
+            bad = sorted(hx(p) for p in set(have) ^ set(want)) + sorted(hx(p) for p in have if p in want and (have[p][0], self.reg.sha_of(have[p][1])) != want[p])
+            cls = None
+            if set(have) == set(want) and all(self.mode_untrusted((have[unhx(b)][0], self.reg.sha_of(have[unhx(b)][1])), want[unhx(b)]) for b in bad):
+                cls = "config:index-mode-from-filesystem:add"
+            self.ctx.oracle_fail(self.stream, self.case(differing=bad[:6], n=len(idx)),
+                                 f"after add() the index's tree {got!r} is not the directory's {wid!r}; {len(bad)} paths differ, e.g. "
+                                 f"{[(unhx(b), have.get(unhx(b), ('-',))[0], want.get(unhx(b), ('-',))[0]) for b in bad[:3]]} (path, kind in the index, kind expected)", cls)
+            if cls:
+                self.failed = True  # (the index now differs from what the rest of the scenario assumes)
+        if s.get("git"):
+            # C git starts from a copy of the index as it was BEFORE dulwich's add (its own add-all, not a look at
+            # dulwich's result), then once more on the shared index file
+            alt = self.root / ".git" / "index-before-add"
+            if self.idx_bytes_before_add is not None:
+                alt.write_bytes(self.idx_bytes_before_add)
+            self.git("add", "-A", index_file=alt)
+            gid0 = self.git("write-tree", index_file=alt).strip()
+            alt.unlink()
+            if gid0 != wid:
+                self.ctx.oracle_fail(self.stream, self.case(), f"git add -A from the same index; git write-tree gives {gid0!r}, the directory's tree computed here is {wid!r}",
+                                     "oracle:git-vs-three-way")
+            if got != wid:
+                return
+            self.git("add", "-A")
+            gid = self.git("write-tree").strip()
+            self.ctx.count(self.stream + ".git-add-A", (self.label, len(self.script)), True)
+            if gid != wid:
+                self.ctx.oracle_fail(self.stream, self.case(), f"git add -A; git write-tree gives {gid!r}, the directory's tree computed here is {wid!r}",
+                                     "oracle:git-vs-three-way")
 
     def do_clock(self, s):
         """choose HEAD's commit time: a fixed second, or the current one (waiting for the start of a second)."""
@@ -1040,9 +1221,11 @@ class Scen:
             return
         self.head = name
         idx = {p: (k, c) for p, (k, c, _) in self.read_index().items()}
-        wd = {p: (f["kind"], f["cid"]) for p, f in self.snapshot().items()}
+        wd = self.wd_modulo_config(T_)
 
         def cls_of(p):
+            if self.mode_untrusted(idx.get(p), T_.get(p)):
+                return "config:index-mode-from-filesystem:checkout"
             if I_.get(p) is not None and W_.get(p) is None and T_.get(p) is None and (via == "reset" or H_.get(p) is not None):
                 return "hardreset:index-entry-kept:file-already-deleted"    # (a deletion is applied, the file is already gone)
             # checkout/switch(force=True) take the changes from HEAD's tree to the target and skip equal entries: a
@@ -1062,17 +1245,26 @@ class Scen:
             if wd.get(p) != W_[p]:
                 self.ctx.oracle_fail(self.stream, self.case(path=hx(p), via=via), f"{via} touched the untracked file {p!r} "
                                      f"(H={H_.get(p)} W={W_.get(p)})", cls_of(p))
+        if any(self.mode_untrusted(idx.get(p), T_.get(p)) for p in T_):
+            self.failed = True      # (everything after this would repeat the same finding)
         hd = self.repo.refs.read_ref(b"HEAD")
         if self.repo.refs[b"HEAD"] != self.commits[name]:
             self.ctx.oracle_fail(self.stream, self.case(), f"HEAD is {hd!r} after {via} to {name}")
         if s.get("again") and all(idx.get(p) == T_.get(p) for p in tracked):
-            before = (self.read_index(), {p: (f["kind"], f["cid"], f["stat"][1], f["stat"][2]) for p, f in self.snapshot().items()})
+            # (core.symlinks=false: the plain file standing for a link is written again, with the same content; only
+            # kind and content are compared there)
+            relink = {p for p, v in T_.items() if v[0] == "l"} if self.cfg.get("core.symlinks") == "false" else set()
+
+            def state():
+                return ({p: (v[:2] if p in relink else v) for p, v in self.read_index().items()},
+                        {p: ((f["kind"], f["cid"]) if p in relink else (f["kind"], f["cid"], f["stat"][1], f["stat"][2])) for p, f in self.snapshot().items()})
+            before = state()
             try:
                 porcelain.reset(self.repo, "hard", self.commits[name].decode())
             except Exception as e:  # noqa: BLE001
                 self.ctx.oracle_fail(self.stream, self.case(), f"a second reset --hard raised {type(e).__name__}")
             self.fs_dirty = True
-            after = (self.read_index(), {p: (f["kind"], f["cid"], f["stat"][1], f["stat"][2]) for p, f in self.snapshot().items()})
+            after = state()
             if before != after:
                 self.ctx.oracle_fail(self.stream, self.case(), "a second reset --hard to the same commit changed the index or the work tree")
             self.tok(self.obs_tok(T_.keys()))
@@ -1106,11 +1298,13 @@ class Scen:
             off += 8 + struct.unpack(">I", data[off + 4:off + 8])[0]
         return "+".join(sigs) or "none"
 
-    def git(self, *args, config=(), ok_rc=(0,)):
+    def git(self, *args, config=(), ok_rc=(0,), index_file=None):
         cmd = ["git"]
         for c in config:
             cmd += ["-c", c]
         env = git_env(self.home)
+        if index_file is not None:
+            env["GIT_INDEX_FILE"] = str(index_file)
         env.pop("GIT_OPTIONAL_LOCKS", None)           # these commands are meant to write the index
         env["GIT_AUTHOR_DATE"] = env["GIT_COMMITTER_DATE"] = f"{self.commit_time} +0000"   # (unstage stamps entries with it)
         p = subprocess.run(cmd + list(args), cwd=str(self.root), env=env, stdout=subprocess.PIPE, stderr=subprocess.PIPE)
@@ -1324,6 +1518,8 @@ class Scen:
     def finish(self, lines: list, owners: list):
         sizes = ",".join(f"{c}={z}" for c, z in self.reg.size.items()) or "."
         self.toks[self.env_tok_at] = f"env:{self.commit_time}:{sizes}"
+        if not self.checks:
+            return                               # nothing is compared with the model (scenario outside its domain from the start)
         lines.append("c18.run " + " ".join(self.toks))
         owners.append(self)
 
@@ -2252,7 +2448,7 @@ def _stream_gitindex(ctx, batch, stream="gitindex"):
                         sc.exec({"op": "write", "path": hx(q), "kind": snap[q]["kind"], "content": {"hex": hx(b"g%d " % ver + q)}, "tag": "modify-diff"})
                         sc.exec({"op": "git", "args": ["add", "--", os.fsdecode(q)]})
                     elif gk == "rm-cached" and idx:
-                        sc.exec({"op": "git", "args": ["rm", "-q", "--cached", "--", os.fsdecode(rng.choice(sorted(idx)))]})
+                        sc.exec({"op": "git", "args": ["rm", "-q", "-f", "--cached", "--", os.fsdecode(rng.choice(sorted(idx)))]})
                     elif gk == "chmod" and tracked_on_disk:
                         q = rng.choice(tracked_on_disk)
                         sc.exec({"op": "git", "args": ["update-index", "--chmod=" + ("-x" if idx[q][0] == "x" else "+x"), "--", os.fsdecode(q)]})
@@ -2260,6 +2456,145 @@ def _stream_gitindex(ctx, batch, stream="gitindex"):
             ctx.count(stream, i, True)
         finally:
             batch.add(sc)
+
+
+# configuration keys that select another code path in status / add / open_index (read by dulwich: core.preloadIndex,
+# core.trustctime, core.filemode, core.symlinks, core.precomposeunicode, core.ignorecase, core.maxStat, index.version, index.skipHash,
+# feature.manyFiles; read by C git only: core.checkStat, core.untrackedCache, status.showUntrackedFiles, core.fsmonitor)
+CONFIGS = {
+    "default": {},
+    "preloadIndex": {"core.preloadIndex": "true"},
+    "preloadIndex+trustctime=false": {"core.preloadIndex": "true", "core.trustctime": "false"},
+    "trustctime=false": {"core.trustctime": "false"},
+    "filemode=false": {"core.filemode": "false"},
+    "preloadIndex+filemode=false": {"core.preloadIndex": "true", "core.filemode": "false"},
+    "symlinks=false": {"core.symlinks": "false"},
+    "checkStat=minimal": {"core.checkStat": "minimal"},
+    "ignoreCase": {"core.ignoreCase": "true"},
+    "precomposeunicode": {"core.precomposeunicode": "true"},
+    "untrackedCache": {"core.untrackedCache": "true"},
+    "showUntrackedFiles=no": {"status.showUntrackedFiles": "no"},
+    "fsmonitor=false": {"core.fsmonitor": "false"},
+    "index.version=4": {"index.version": "4"},
+    "index.version=4+preloadIndex": {"index.version": "4", "core.preloadIndex": "true"},
+    "skipHash": {"index.skipHash": "true"},
+    "manyFiles": {"feature.manyFiles": "true"},
+    # core.maxStat is dulwich's own opt-in truncation of the scan; a limit that is not below the index size must change nothing
+    "maxStat>=n": {"core.maxStat": "N+2"},
+    "preloadIndex+maxStat>=n": {"core.preloadIndex": "true", "core.maxStat": "N+2"},
+}
+CONFIG_SIZES = [1, 2, 7, 8, 9, 499, 500, 501, 999, 1000, 1001, 1009, 4001]
+
+
+def _config_case(ctx, batch, stream, cfg_name, n, label=None):
+    """one repository with `n` index entries under configuration `cfg_name`; edits at the first, the middle and the last
+    few positions of the index order; status (both untracked modes) vs three-way oracle vs git; add-all vs git add -A."""
+    cfg = {k: (str(n + 2) if v == "N+2" else v) for k, v in CONFIGS[cfg_name].items()}
+    rng = ctx.rng
+    sc = Scen(ctx, stream, label or f"{cfg_name}:n{n}")
+    kinds, done, git_ok = {}, False, True
+    try:
+        width = 1 if n <= 9 else (13 if n <= 1100 else 37)
+        paths = sorted((b"d%02d/f%05d" % (i % width, i)) if i % 5 else (b"g%05d" % i) for i in range(n))
+        link_at = paths[n // 3] if (cfg_name == "symlinks=false" and n >= 7) else None
+        ents = [[hx(p), "l" if p == link_at else ("x" if i % 11 == 3 or i in (n // 2, n - 1) else "r"), {"hex": hx(b"target" if p == link_at else b"c%d\n" % (i % 97))}]
+                for i, p in enumerate(paths)]
+        # the configuration is in place before the checkout (core.symlinks, index.version … act there too)
+        sc.exec({"op": "configs", "set": cfg})
+        semantic = any(k in cfg for k in ("core.filemode", "core.symlinks", "core.trustctime"))
+        git_ok = not any(k in cfg for k in ("index.skipHash", "feature.manyFiles"))      # (C git 2.39 has no index.skipHash)
+        sc.exec({"op": "tree", "name": "t", "entries": ents})
+        with_model = not semantic and (n <= 9 or (n <= 501 and (ctx.thorough or cfg_name in ("default", "preloadIndex")))
+                                       or (n <= 1009 and ctx.thorough and cfg_name == "default"))
+        if not with_model:
+            sc.model_ok = False          # the model describes the default configuration; its association lists make large
+                                         # indexes slow, so most large cases are judged by the oracles alone
+        sc.exec({"op": "fresh", "tree": "t", "cfg": True})
+        if sc.failed:
+            return
+        pos = sorted({0, n // 2, n - 1, max(n - 2, 0), max(n - 3, 0), max(n - 4, 0), max(n - 9, 0), n // 7})
+        for j, i in enumerate(pos):
+            p = paths[i]
+            if p == link_at:
+                continue
+            k = "modify" if i in (0, n // 2, n - 1) or j % 3 == 0 else ("delete" if j % 3 == 1 else "chmod")
+            if k == "chmod" and ents[i][1] == "l":
+                k = "modify"
+            kinds[i] = k
+            if k == "modify":
+                # same size as the checked-out content except at the first position: only the time stamps (and the
+                # content) tell; the scenario is short enough for the edit to fall into the second of the checkout
+                body = (b"edited %d\n" % i) if i == 0 and n > 1 else (b"C%d\n" % (i % 97))
+                # (core.filemode=false: the rewritten file has no executable bit, the entry keeps the one it had)
+                wk = "r" if cfg.get("core.filemode") == "false" else ents[i][1]
+                sc.exec({"op": "write", "path": hx(p), "kind": wk, "content": {"hex": hx(body)}, "tag": "modify-diff"})
+            elif k == "delete":
+                sc.exec({"op": "unlink", "path": hx(p), "tag": "delete"})
+            else:
+                sc.exec({"op": "chmod", "path": hx(p), "mode": 0o644 if ents[i][1] == "x" else 0o755, "tag": "chmod"})
+        if link_at is not None:
+            # core.symlinks=false: the plain file standing for the link gets a new target; the entry stays a link
+            sc.exec({"op": "write", "path": hx(link_at), "kind": "r", "content": {"hex": hx(b"other-target")}, "tag": "modify-diff"})
+        sc.exec({"op": "write", "path": hx(b"zzz-last/new"), "kind": "r", "content": {"hex": hx(b"new")}, "tag": "add-untracked"})
+        sc.exec({"op": "write", "path": hx(b"!first"), "kind": "r", "content": {"hex": hx(b"new")}, "tag": "add-untracked"})
+        sc.exec({"op": "status", "git": git_ok})
+        sc.exec({"op": "addall"})
+        if n <= 600 or ctx.thorough:
+            sc.exec({"op": "status", "git": git_ok})
+        sc.exec({"op": "addallcheck", "git": git_ok})
+        if (n <= 501 or ctx.thorough) and not sc.failed:
+            # reset --hard to a second commit and a branch switch back under the same configuration: index and work tree
+            # are the target, status is clean (contents and executable bits differ at the first / middle / last entries)
+            ents2 = []
+            for i, (ph, k, spec) in enumerate(ents):
+                if n >= 7 and i == n // 7:
+                    continue
+                if i in pos and k != "l":
+                    ents2.append([ph, {"r": "x", "x": "r"}[k] if i % 2 else k, {"hex": hx(b"second %d\n" % i)}])
+                else:
+                    ents2.append([ph, k, spec])
+            ents2.append([hx(b"d00/added"), "x", {"hex": hx(b"added\n")}])
+            sc.exec({"op": "tree", "name": "u", "entries": ents2})
+            sc.exec({"op": "hardreset", "tree": "u", "via": "reset", "again": True})
+            sc.exec({"op": "status", "git": git_ok})
+            if not sc.failed:
+                # (reset --hard moved the branch `t`; the first tree again, under a branch of its own)
+                sc.exec({"op": "tree", "name": "v", "entries": ents})
+                sc.exec({"op": "switch", "tree": "v"})
+                sc.exec({"op": "status", "git": git_ok})
+        tag = f"{cfg_name}:n{n}"
+        ctx.count(stream, (cfg_name, n), True, tag)
+        done = True
+    finally:
+        cov = ctx.extra_cov.setdefault("config_stream", {"config_keys": [], "index_sizes": [], "cases": []})
+        for k in cfg:
+            if k not in cov["config_keys"]:
+                cov["config_keys"].append(k)
+        if n not in cov["index_sizes"]:
+            cov["index_sizes"].append(n)
+        cov["cases"].append({"config": cfg_name, "entries": n, "edited_positions": {str(i): kinds[i] for i in kinds}, "git": git_ok,
+                             "with_model": bool(sc.checks), "ran_to_the_end": done and not sc.failed})
+        batch.add(sc)
+
+
+def _stream_config(ctx, batch, stream="config"):
+    """status / add under NON-DEFAULT configuration on indexes whose size crosses batching thresholds, the edited entries at
+    the first, the middle and the LAST positions of the index order."""
+    rng = ctx.rng
+    names = list(CONFIGS)
+    if ctx.thorough:
+        plan = [(c, n) for c in names for n in CONFIG_SIZES if n <= 1009 or c in ("default", "preloadIndex", "preloadIndex+trustctime=false", "index.version=4+preloadIndex")]
+    else:
+        # every configuration at a small and at a threshold-crossing size; the parallel scan also at sizes that are not
+        # divisible by 2..8 with the edit at the last entry (1009, 4001)
+        git_only = ("checkStat=minimal", "untrackedCache", "showUntrackedFiles=no", "fsmonitor=false")   # keys dulwich does not read
+        plan = [(c, rng.choice([1, 2, 7, 8, 9])) for c in names]
+        plan += [(c, rng.choice([499, 500, 501] if c in git_only else [499, 500, 501, 999, 1000, 1001, 1009])) for c in names]
+        plan += [("preloadIndex", 1009), ("preloadIndex", 4001), ("preloadIndex+filemode=false", 1001), ("default", 1009),
+                 ("default", 501)]
+        plan = list(dict.fromkeys(plan))
+    for c, n in plan:
+        _config_case(ctx, batch, stream, c, n)
 
 
 def _stream_linkdir(ctx, batch, stream="linkdir"):
@@ -2322,7 +2657,7 @@ def run(ctx: core.Ctx):
         "StatHonest (racy-git assumption): a file whose (ctime, mtime, size) equals the cached stat key has the cached "
         "content; enforced in the main streams by giving every write of the harness a fresh, strictly increasing mtime "
         "(os.utime) and CHECKED at every status call; the 'racy' stream violates it on purpose and only reports",
-        "autocrlf off, no ignore files, no submodules, no sparse checkout, core.filemode/symlinks true, default "
+        "autocrlf off, no ignore files, no submodules, no sparse checkout, core.filemode/symlinks true except in the 'config' stream (oracles only there), default "
         "core.protectNTFS; generated names avoid the NTFS spellings of .git (C17's subject), symlink loops, and "
         "symbolic links to directories placed above tracked paths (checked by the direct oracle only, stream 'linkdir')",
         "blob ids: the hash is a parameter of the model; the harness computes blob ids with hashlib (not dulwich) and "
@@ -2344,6 +2679,7 @@ def run(ctx: core.Ctx):
     _stream_roundtrip(ctx, batch)
     _stream_switch(ctx, batch)
     _stream_edits(ctx, batch)
+    _stream_config(ctx, batch)
     _stream_iwt(ctx, batch)
     _stream_gitindex(ctx, batch)
     _stream_dirty_switch(ctx, batch)
